@@ -233,5 +233,14 @@ async fn renew_certificate(
 			certificate.warn(&e.message);
 		}
 	};
+	if !is_success {
+		// The renewal is queued again as soon as this function returns: wait
+		// before the next attempt instead of hammering the CA and the hooks.
+		certificate.debug(&format!(
+			"next attempt in {} seconds",
+			crate::DEFAULT_RENEW_FAIL_WAIT_SEC
+		));
+		sleep(Duration::from_secs(crate::DEFAULT_RENEW_FAIL_WAIT_SEC)).await;
+	}
 	(certificate, account_s.clone(), endpoint_s.clone())
 }
